@@ -103,6 +103,67 @@ def linRow (width : Nat) : List α → List α → List (List α) → α × List
 
 end node
 
+/-! ## 2b. binary64 instances of the function rules (driver only)
+
+The transcendental rules live over ℝ in `Lemmas.lean` (`expRule`, `logRule`, …, noncomputable).  Their
+binary64 counterparts below are what the driver evaluates to re-compute function nodes of the real trees
+(class T comparison, relative 1e-9); they are transcriptions of the same formulas, not the same terms. -/
+
+def ratToFloat (q : Rat) : Float := Float.ofInt q.num / Float.ofNat q.den
+
+/-- exact value of a finite binary64 number -/
+def floatToRat (x : Float) : Option Rat :=
+  if x.isNaN || x.isInf then none else
+  let (m, e) := x.frExp
+  let mi : Int := (m * 9007199254740992.0).toInt64.toInt
+  let ex : Int := e - 53
+  some (if ex ≥ 0 then (mi : Rat) * ((2 ^ ex.toNat : Nat) : Rat) else (mi : Rat) / ((2 ^ (-ex).toNat : Nat) : Rat))
+
+def piF : Float := 3.141592653589793
+
+def signF (x : Float) : Float := if x > 0 then 1 else if x < 0 then -1 else 0
+
+/-- `(value, Jacobian factor)` of the unary functions of `porepy/numerics/ad/functions.py` (and of
+    `AdArray.__pow__` with a non-integral float exponent, name `pow`); `p` are the arguments bound by
+    `functools.partial` -/
+def fnRuleF (name : String) (p : List Float) : Option (Rule1 Float) :=
+  match name, p with
+  | "exp", _ => some ⟨Float.exp, Float.exp⟩
+  | "log", _ => some ⟨Float.log, fun x => 1 / x⟩
+  | "sin", _ => some ⟨Float.sin, Float.cos⟩
+  | "cos", _ => some ⟨Float.cos, fun x => -Float.sin x⟩
+  | "tan", _ => some ⟨Float.tan, fun x => 1 / (Float.cos x * Float.cos x)⟩
+  | "sinh", _ => some ⟨Float.sinh, Float.cosh⟩
+  | "cosh", _ => some ⟨Float.cosh, Float.sinh⟩
+  | "tanh", _ => some ⟨Float.tanh, fun x => 1 / (Float.cosh x * Float.cosh x)⟩
+  | "arctan", _ => some ⟨Float.atan, fun x => 1 / (x * x + 1)⟩
+  | "arcsin", _ => some ⟨Float.asin, fun x => 1 / Float.sqrt (1 - x * x)⟩
+  | "arccos", _ => some ⟨Float.acos, fun x => -(1 / Float.sqrt (1 - x * x))⟩
+  | "arcsinh", _ => some ⟨Float.asinh, fun x => 1 / Float.sqrt (x * x + 1)⟩
+  | "arccosh", _ => some ⟨Float.acosh, fun x => 1 / (Float.sqrt (x - 1) * Float.sqrt (x + 1))⟩
+  | "arctanh", _ => some ⟨Float.atanh, fun x => 1 / (1 - x * x)⟩
+  | "abs", _ => some ⟨Float.abs, signF⟩
+  | "characteristic_function", [tol] => some ⟨fun x => if x.abs ≤ tol then 1 else 0, fun _ => 0⟩
+  | "heaviside", [z] => some ⟨fun x => if x < 0 then 0 else if x == 0 then z else 1, fun _ => 0⟩
+  | "heaviside_smooth", [eps] =>
+      some ⟨fun x => 0.5 * (1 + 2 / piF * Float.atan (x / eps)), fun x => eps / piF / (eps * eps + x * x)⟩
+  | "safe_power", [pw, z, tol] =>
+      some ⟨fun x => if x.abs > tol then Float.pow x pw else z,
+            fun x => if x.abs > tol then pw * Float.pow x (pw - 1) else 0⟩
+  | "pow", [c] => some ⟨fun x => Float.pow x c, fun x => c * Float.pow x (c - 1)⟩
+  | _, _ => none
+
+/-- `AdArray ** AdArray` (and `float ** AdArray`, `ndarray ** AdArray` with a zero row for the base):
+    `val = a ** b`, `jac = diag(b · a ** (b-1))·Ja + diag(a ** b · log a)·Jb` -/
+def powRuleF : Rule2 Float :=
+  ⟨fun a b => Float.pow a b, fun a b => b * Float.pow a (b - 1), fun a b => Float.pow a b * Float.log a⟩
+
+/-- `l2_norm(dim, ·)`, one cell: from the `dim` component values and their Jacobian rows to
+    `(‖v‖, Σ_d (v_d/‖v‖)·row_d)` -/
+def normRowF (width : Nat) (vals : List Float) (jacs : List (List Float)) : Float × List Float :=
+  let nrm := Float.sqrt (vals.foldl (fun s v => s + v * v) 0)
+  (nrm, (linRow width (vals.map (· / nrm)) vals jacs).2)
+
 /-! ## 3. vocabulary -/
 
 /-- Node kinds in the auditor's notation together with the theorem of `Props.lean` that covers them.
@@ -116,13 +177,17 @@ def vocabulary : List (String × String) :=
     ("const", "const_leaf_sound") ]           -- every `const:<op>`: a sub-tree without variables (prefix)
   ++ five "add" "add_sound" ++ five "sub" "sub_sound" ++ five "mul" "mul_sound" ++ five "div" "div_sound"
   ++ [ ("pow(A,S)", "pow_const_sound"), ("pow(A,V)", "pow_const_sound"),
+       ("pow(A,A)", "pow_sound"), ("pow(S,A)", "pow_sound"), ("pow(V,A)", "pow_sound"),
        ("matmul(M,A)", "matmul_sound"), ("matmul(L,A)", "matmul_sound"), ("matmul(LL,A)", "matmul_sound") ]
   ++ five "fn:maximum" "maximum_sound"
   ++ [ ("fn:exp(A)", "exp_sound"), ("fn:log(A)", "log_sound"), ("fn:sin(A)", "sin_sound"),
        ("fn:cos(A)", "cos_sound"), ("fn:tan(A)", "tan_sound"), ("fn:sinh(A)", "sinh_sound"),
        ("fn:cosh(A)", "cosh_sound"), ("fn:tanh(A)", "tanh_sound"), ("fn:arctan(A)", "arctan_sound"),
        ("fn:abs(A)", "abs_sound"), ("fn:l2_norm(A)", "l2_norm_sound"),
-       ("fn:characteristic_function(A)", "characteristic_sound"), ("fn:heaviside(A)", "heaviside_sound") ]
+       ("fn:characteristic_function(A)", "characteristic_sound"), ("fn:heaviside(A)", "heaviside_sound"),
+       ("fn:arcsin(A)", "arcsin_sound"), ("fn:arccos(A)", "arccos_sound"), ("fn:arcsinh(A)", "arcsinh_sound"),
+       ("fn:arccosh(A)", "arccosh_sound"), ("fn:arctanh(A)", "arctanh_sound"),
+       ("fn:safe_power(A)", "safe_power_sound"), ("fn:heaviside_smooth(A)", "heaviside_smooth_sound") ]
 
 /-- the part of a kind string before the second `:` (`leaf:const:V` ↦ `leaf:const`), or before the first
     `:` for `const:<op>` -/
